@@ -22,6 +22,7 @@ def Rx.paths : Rx → Nat → Nat
   | .rep r lo (some h), n => (r.paths n + 1) ^ (max lo h)
   | .grp _ r, n => r.paths n
   | .ahead _, _ => 1
+  | .nahead _, _ => 1
   | .behind _, _ => 1
   | .wordb _, _ => 1
   | .eos, _ => 1
@@ -40,6 +41,7 @@ theorem Rx.paths_mono (r : Rx) {m n : Nat} (h : m ≤ n) : r.paths m ≤ r.paths
     | some k => simp only [Rx.paths]; exact Nat.pow_le_pow_left (Nat.succ_le_succ ih) _
   | grp i r ih => simp only [Rx.paths]; exact ih
   | ahead _ _ => exact Nat.le_refl _
+  | nahead _ _ => exact Nat.le_refl _
   | behind _ => exact Nat.le_refl _
   | wordb _ => exact Nat.le_refl _
   | eos => exact Nat.le_refl _
@@ -126,6 +128,11 @@ theorem Rx.all_rest_le (r : Rx) (s s' : St) (h : s' ∈ r.all s) : s'.rest.lengt
     split at h
     · rw [List.mem_singleton] at h; subst h; exact Nat.le_refl _
     · simp at h
+  | nahead r _ =>
+    simp only [Rx.all] at h
+    split at h
+    · simp at h
+    · rw [List.mem_singleton] at h; subst h; exact Nat.le_refl _
   | behind cs =>
     simp only [Rx.all] at h
     split at h
@@ -281,6 +288,9 @@ theorem C16_safe_paths_bound (r : Rx) (hs : r.safe = true) (s : St) :
   | ahead r _ =>
     simp only [Rx.all, Rx.paths]
     split <;> simp
+  | nahead r _ =>
+    simp only [Rx.all, Rx.paths]
+    split <;> simp
   | behind cs =>
     simp only [Rx.all, Rx.paths]
     split
@@ -355,6 +365,7 @@ theorem C16_paths_polynomial (r : Rx) (n : Nat) : r.paths n ≤ r.coef * (n + 1)
           rw [Nat.mul_pow, ← Nat.pow_mul, Nat.mul_comm r.deg]
   | grp i r ih => simp only [Rx.paths, Rx.coef, Rx.deg]; exact ih
   | ahead _ _ => simp [Rx.paths, Rx.coef, Rx.deg]
+  | nahead _ _ => simp [Rx.paths, Rx.coef, Rx.deg]
   | behind _ => simp [Rx.paths, Rx.coef, Rx.deg]
   | wordb _ => simp [Rx.paths, Rx.coef, Rx.deg]
   | eos => simp [Rx.paths, Rx.coef, Rx.deg]
